@@ -235,7 +235,10 @@ def run(geofile, raw, outpath):
                     o["start_valid"] = bool(st["valid"] and not st["outside"])
                 if e in ("Find", "FindMax"):
                     d = r["d"]
-                    o["dcls"] = "inf" if d is None else ("zero" if d == 0 else ("pos" if d > 0 else "neg"))
+                    # "tiny": a second surface within 100x the geometry tolerance of the track -- an edge /
+                    # corner state, outside the property (the history is not judged beyond this point)
+                    tiny = d is not None and 0 < d <= 1e-6 * max(1.0, float(np.max(np.abs(P["pos"]))))
+                    o["dcls"] = "inf" if d is None else ("zero" if d == 0 else ("tiny" if tiny else ("pos" if d > 0 else "neg")))
                     o["pre_ph"] = P["pre_ph"]
                     if "rev_a" in P:
                         ka, kb = an.key(P["rev_a"]), an.key(P["rev_b"])
